@@ -236,7 +236,7 @@ def _update(cond_i, prior, y_i, route, Dw, Dy):
         lp = A(p_y.evaluate_ln(yj))[0, 0]
     else:
         joint = cond_i.affine_joint_transformation(prior)
-        ydims = jnp.arange(Dw, Dw + Dy)
+        ydims = np.arange(Dw, Dw + Dy)
         post_c = joint.condition_on(ydims)
         post = post_c.condition_on_x(yj)
         lp = A(joint.get_marginal(ydims).evaluate_ln(yj))[0, 0]
